@@ -26,7 +26,7 @@ def obligations(tier):
            [F['dl']], module=H, func='k3_prefix', timeout=600),
         Ob('K4', 'E', 'two or three clients storing the same snapshot into a shared cache directory under every interleaving of the statements of _store_cached: no error, entry intact, nothing left behind',
            '2 x 3^6 schedule prefixes', ['replicat.repository:Repository._store_cached'], module=H, func='k4_store_race', timeout=600),
-        Ob('E.cache', 'E', 'cached vs cache-less client: same outputs of list_snapshots/list_files/restore for A, B(shared), C(independent)',
+        Ob('E.cache', 'E', 'cached vs cache-less client: same outputs of list_snapshots/list_files/restore, and same report and same objects in the store after snapshot, delete, clean, list/delete/download-objects and an upload-objects --skip-existing mirror into another (empty) repository with the same cache directory, for A, B(shared), C(independent)',
            '15x15 command pairs x shared/separate cache x 7 corruptions x 3 target files = 9450 vectors' if tier == 'thorough' else '15x15x2x7x3 = 9450 vectors',
            [F['dl'], F['ls'], F['del']], module=H, func='e_cache', timeout=1800, shards=16),
     ]
